@@ -1852,6 +1852,7 @@ def share_rules(ctx, prop, rules, as_rule, item, floor, exclude=()):
         sub.no_share = True
         sub.inline_set = ctx.inline_set
         sub.desugar = bool(getattr(mod, "DESUGAR", False))
+        sub.splice = getattr(mod, "SPLICE_LOOP_HELPERS", False)
         try:
             mod.run(sub)
             _SHARE_CACHE[ck] = list(sub.records)
